@@ -140,6 +140,10 @@ func (m *vKVModel) delTree(idx uint64, prefix string) {
 	m.kv = keep
 	if prefix != "" {
 		m.addTomb(prefix, idx)
+	} else {
+		// the whole tree is gone: no tombstone can stand for it; older tombstones
+		// are dropped so that every listing falls back to the table index
+		m.tombs = nil
 	}
 	m.kvsIdx = idx
 }
